@@ -205,6 +205,21 @@ def documented_attribute(doc, op, m, name, loc):
     return None
 
 
+def explained_by_c04(b, m, label, val, locs, typed):
+    """is an invalid request that reached the service one of C04's recorded findings (the predicates of vlib/c04.py judge)?"""
+    loc = label.split("/")[0]
+    if loc == "raw":
+        loc = "query" if "query" in label else "header" if "header" in label else "cookie" if "cookie" in label else "body"
+    attrs = [a for a, l in locs.items() if l == loc] or [None]
+    if any(c04.later_required_cookie(m, loc, a) for a in attrs):
+        return True
+    try:
+        sent = c04.transmitted(b.schema, m["payload"], val, locs, typed)
+    except c04.Skip:
+        return True
+    return "exmax-with-exmin" in label or c04.exmax_with_exmin_site(b.schema, m["payload"], sent)
+
+
 def exchange(o):
     w = o.get("wire") or {}
     if not w.get("method"):
@@ -549,7 +564,13 @@ def judge_design(c, b, drv, per_valid, cap):
                 # wire-level part the model does not have: explicit nulls, presence of parameters. Its other disagreements with
                 # the server (formats it does not know, numeric enums of parameters, ...) are its own limits: counted, not reported.
                 kc, lc2 = kin_class(v.get("request_err")), label_class(label)
-                if sp is not None and sp == doc_ok:
+                if sp is not None and sp == doc_ok and server_ok and not explained_by_c04(b, m, label, val, locs, typed):
+                    # design and document agree that the request is invalid, the server accepts it, and none of C04's recorded findings
+                    # explains it: the contract forbids an input the server accepts
+                    c.fail("c14/server-accepts-what-document-and-design-reject:" + kc,
+                           "%s.%s [%s]: the server accepts a request that the design's validations and the document both reject: %s" % (s["name"], m["name"], label, v.get("request_err", "")[:300]),
+                           input=inp, design=b.design)
+                elif sp is not None and sp == doc_ok:
                     c.hist("attributed", "server deviates from the specification (C04): " + (("server accepts invalid:" + kc) if server_ok else ("server rejects valid:" + lc2)))
                     ex = c.cov.setdefault("attributed_examples", [])
                     if len(ex) < 6:
